@@ -1,6 +1,7 @@
 # -*- coding: utf-8 -*-
 """C17 Fingerprints -- fold bound, numbering-blind hashing, fragment canonicalisation."""
 from ..r_canon import rule_fold_mask, rule_order_free_hash, rule_hash_inputs, rule_fragment_canonical
+from ..r_hygiene import rule_hygiene as _rule_hygiene
 
 LEVEL = 'other'
 
@@ -12,3 +13,4 @@ def run(ck, repo):
     ck.require(n >= 1, 'no dictionary iteration inside hash() found in _morgan_hash_dict')
     rule_hash_inputs(ck, repo, 'C17.D2-hash-inputs')
     rule_fragment_canonical(ck, repo, 'C17.D2-fragment-canonical')
+    _rule_hygiene(ck, repo, 'C17.H-dataflow-hygiene', 'C17')
